@@ -42,7 +42,7 @@ add("C11", False, "E2-explorer", "explicit-state exploration of all operation wo
 add("C12", False, "E3-tlc-conformance + E2", "TLC explicit-state model of the stopping rule with every behaviour replayed against Graph.optimize through a scripted edge; exhaustive call-splitting (all compositions of n<=6) and direct enumeration over graphs x tol x max_iter x verbose",
     "TLC checks the documented rule on every reachable state of the loop model; every maximal path of the dumped state graph is replayed on the real optimizer and compared field by field; split runs, verbose and report fields are enumerated on real graphs.",
     "TLC 1.8.0 trusted; eps in the denominator and NaN chi2 are outside the TLA+ model and covered by the direct enumeration", "DESIGN.md 4 C12, Appendix A")
-add("C13", False, "E1-enumerator + E2 cycles", "exhaustive enumeration of small graphs over per-slot value alphabets (extreme doubles, w<0, rotated offsets, non-diagonal information, id alphabets) through real temp files, 1..5 export/import cycles",
+add("C13", True, "E1-enumerator + E2 cycles", "exhaustive enumeration of small graphs over per-slot value alphabets (extreme doubles, w<0, rotated offsets, non-diagonal information, id alphabets) through real temp files, 1..5 export/import cycles",
     "Every graph of the bounded family is written and re-read; every field compared bitwise (4 ulp on wrapped angles / renormalised quaternions), tokens re-parsed independently; inexpressible content must raise.",
     "filesystem + CPython float repr/parse trusted", "DESIGN.md 4 C13")
 add("C14", True, "E1-enumerator", "exhaustive enumeration of legal line orders, junk placements (0,1,2 insertions), number formats, separators and line endings vs an independent tokenizer reference; all six loader entry points",
